@@ -6,7 +6,7 @@ cd /repo || exit 2
 if ! git diff --quiet; then echo "repo not clean"; exit 2; fi
 git apply "$diff" || { echo "patch does not apply"; exit 2; }
 cd /verif
-VERIF_REPLAYS=/verif/replays-mutants ./check "$prop" "$@" > /tmp/try_mutant.out 2>&1
+VERIF_EVIDENCE=/tmp/ev-mutants VERIF_REPLAYS=/verif/replays-mutants ./check "$prop" "$@" > /tmp/try_mutant.out 2>&1
 code=$?
 git -C /repo checkout -- .
 grep -E "^\[|VIOLATION|signature|detail|HARNESS|KNOWN" /tmp/try_mutant.out | cut -c1-260 | head -30
